@@ -368,7 +368,11 @@ func (ex *Exec) recordFailure(label, kind, detail string) {
 		return
 	}
 	ex.res.sigSeen[sig]++
-	f.Model = ex.decodeModel(ex.solver.Model(ex.declared))
+	raw := ex.solver.Model(ex.declared)
+	f.Model = ex.decodeModel(raw)
+	if ex.vfs != nil {
+		f.Image = ex.exportImage(raw)
+	}
 	f.Trace = append([]int8{}, ex.trace...)
 	ex.res.Failures = append(ex.res.Failures, f)
 }
